@@ -1142,7 +1142,7 @@ pub fn repeat_storms(ctx: &Ctx, want: &str) -> Report {
     }
     let mut jobs: Vec<(u64, u8)> = Vec::new();
     for c in &counts {
-        for kind in 0..5u8 {
+        for kind in 0..10u8 {
             // the 2^32 storms: retrigger mode with a key held from the start (kind 0) and a key struck shortly
             // before the count is reached (kind 4)
             if *c >= 1 << 31 && !(kind == 0 || kind == 4) {
@@ -1170,7 +1170,13 @@ pub fn repeat_storms(ctx: &Ctx, want: &str) -> Report {
         let pattern: Vec<u8> = match kind {
             0 | 1 | 4 => vec![0x90 | ch, key, 100, 0x80 | ch, key, 0],
             2 => vec![0x90 | ch, key, 100, key, 0],                              // running status, velocity-0 release
-            _ => vec![0xB0 | ch, 1, 10, 1, 20, 0xE0 | ch, 5, 6, 0xB0 | ch, 7, 3], // controllers and pitch bend
+            3 => vec![0xB0 | ch, 1, 10, 1, 20, 0xE0 | ch, 5, 6, 0xB0 | ch, 7, 3], // controllers and pitch bend
+            // messages that never complete, or that are not for this receiver: whatever counts them must not wrap
+            5 => vec![0x90 | ch, key],            // a note-on cut short by the next status byte, n times
+            6 => vec![0xB0 | ch, 7],              // the same for a control change
+            7 => vec![0xF0, 0x7F, 0x01],          // SysEx restarted before it ends
+            8 => vec![0xF8, 0xFE],                // real-time bytes only
+            _ => vec![0x90 | ((ch + 1) % 16), key, 100, 0xB0 | ((ch + 5) % 16), 7, 1], // other channels' traffic
         };
         if kind == 4 {
             // almost n note-ons, then a second key struck and held, then enough further note-ons to pass n:
